@@ -287,7 +287,7 @@ func convertNumericToString(input any) (string, bool) {
 	case int:
 		return strconv.Itoa(v), true
 	case uint:
-		return strconv.Itoa(int(v)), true
+		return strconv.FormatUint(uint64(v), 10), true
 	case int8:
 		return strconv.Itoa(int(v)), true
 	case uint8:
